@@ -147,7 +147,9 @@ class Directive(Base):
     ]
 
     @show_result
-    def __new__(cls, string: Union[str, FortranReaderBase], parent_cls=None):
+    def __new__(
+        cls, string: Union[str, FortranReaderBase], parent_cls=None, _deepcopy=False
+    ):
         """
         Create a new Directive instance.
 
@@ -155,9 +157,14 @@ class Directive(Base):
         :param string: (source of) Fortran string to parse.
         :param parent_cls: the parent class of this object.
         :type parent_cls: :py:type:`type`
+        :param bool _deepcopy: whether this is part of a deep-copy or \
+            unpickling operation (see Base.__getnewargs__).
 
         """
         from fparser.common import readfortran
+
+        if _deepcopy:
+            return object.__new__(cls)
 
         if isinstance(string, readfortran.Comment):
             # Inline comments cannot be directives.
@@ -208,6 +215,8 @@ class Directive(Base):
         """
         self.items = [comment.comment]
         self.item = comment
+        # Needed by Base.__getnewargs__ (deep copy and pickling).
+        self.string = comment.comment
 
     def tostr(self) -> str:
         """
@@ -224,7 +233,7 @@ class Comment(Base):
     subclass_names = []
 
     @show_result
-    def __new__(cls, string, parent_cls=None):
+    def __new__(cls, string, parent_cls=None, _deepcopy=False):
         """
         Create a new Comment instance.
 
@@ -233,9 +242,14 @@ class Comment(Base):
         :type string: str or :py:class:`FortranReaderBase`
         :param parent_cls: the parent class of this object.
         :type parent_cls: :py:type:`type`
+        :param bool _deepcopy: whether this is part of a deep-copy or \
+            unpickling operation (see Base.__getnewargs__).
 
         """
         from fparser.common import readfortran
+
+        if _deepcopy:
+            return object.__new__(cls)
 
         if isinstance(string, readfortran.Comment):
             # We were after a comment and we got a comment. Construct
@@ -269,6 +283,8 @@ class Comment(Base):
         """
         self.items = [comment.comment]
         self.item = comment
+        # Needed by Base.__getnewargs__ (deep copy and pickling).
+        self.string = comment.comment
 
     def tostr(self):
         """
